@@ -22,6 +22,7 @@ RULE = (
     " | suite: the repository's own tests run under xgimon/suite_plugin.py; every outermost public boundary call on a network is one more evaluation"
 )
 ASSUMPTIONS = [
+    'has_simplex queries rotate through nine argument forms (tuple, list, one-shot iterator, set, generator, frozenset, map, reversed list, dict keys)',
     "inherited Hypergraph rewiring methods and None members are outside the statement's input space and are not driven",
     "has_simplex is compared with brute force for every subset of size <= 4 of (current nodes + 2 absent labels)",
 ]
